@@ -28,7 +28,9 @@ COVERED = {
     "signal": {"signal": "no-op", "SIGINT": "const", "SIGTERM": "const"},
     "concurrent": {"futures": "pool fake", "futures.ThreadPoolExecutor": "pool fake", "futures.wait": "kernel wait", "futures.ALL_COMPLETED": "const",
                    "futures.FIRST_COMPLETED": "const", "futures.Executor": "type", "futures.Future": "type"},
-    "zmq": {"Context": "fake", "Socket": "fake", "Poller": "fake", "PUSH": "const", "PULL": "const", "REQ": "const", "REP": "const", "POLLIN": "const", "LINGER": "const"},
+    "zmq": {"Context": "fake", "Socket": "fake", "Poller": "fake", "PUSH": "const", "PULL": "const", "REQ": "const", "REP": "const", "POLLIN": "const", "LINGER": "const",
+            "REQ_RELAXED": "fake REQ sockets never enforce the send/recv alternation; without REQ_CORRELATE a late reply is handed to the next request, as in ZeroMQ",
+            "REQ_CORRELATE": "const (request ids are not modelled: treated as absent)", "RCVTIMEO": "const", "SNDTIMEO": "const"},
     "atexit": {"register": "per-process exit handlers"},
     "builtins": {"open:shm/disk.py": "in-memory fs (module attribute cascade.shm.disk.open)", "open:gateway/router.py": "in-memory fs (module attribute cascade.gateway.router.open)"},
 }
